@@ -191,18 +191,19 @@ def main():
     if os.path.isdir(sub):
         props_files += sorted(os.path.join(sub, f) for f in os.listdir(sub) if f.endswith(".lean"))
     theorems = [t for pf in props_files for t in list_theorems(pf)]
+    props_mods = [os.path.relpath(pf, LEAN)[:-5].replace(os.sep, ".") for pf in props_files] or [props_mod]
     lean_ok = True
     with Lock("lake.lock"):
         if tier == "thorough" and not replay:
             # rebuild this property's modules from clean
-            for m in lean_imports_closure(props_mod):
+            for m in sorted({x for pm in props_mods for x in lean_imports_closure(pm)}):
                 for ext in ("olean", "ilean", "olean.hash", "trace", "ilean.hash"):
                     p = os.path.join(LEAN, ".lake", "build", "lib", "lean", m.replace(".", "/") + "." + ext)
                     if os.path.exists(p):
                         os.remove(p)
         rc_d, out_d = run(["lake", "build", "egdriver"], cwd=LEAN)
         log.write(out_d)
-        rc, out = run(["lake", "build", props_mod], cwd=LEAN)
+        rc, out = run(["lake", "build"] + props_mods, cwd=LEAN)
         log.write(out)
     if rc_d != 0:
         say("egdriver does not build:", out_d[-800:])
@@ -234,7 +235,8 @@ def main():
         os.makedirs(os.path.join(LEAN, "EG", "Audit"), exist_ok=True)
         audit = os.path.join(work, f"Audit{pid}.lean")
         with open(audit, "w") as f:
-            f.write(f"import {props_mod}\n")
+            for pm in props_mods:
+                f.write(f"import {pm}\n")
             for (n, _) in theorems:
                 f.write(f"#print axioms {n}\n")
         with Lock("lake.lock"):
@@ -253,7 +255,7 @@ def main():
                 broken_theorems.append(f"{n} (axioms {sorted(set(axioms[n]) - ALLOWED_AXIOMS)})")
             else:
                 discharged += 1
-        for m in lean_imports_closure(props_mod):
+        for m in sorted({x for pm in props_mods for x in lean_imports_closure(pm)}):
             p = os.path.join(LEAN, m.replace(".", "/") + ".lean")
             for ln, line in enumerate(strip_comments(open(p).read()).split("\n"), 1):
                 if FORBIDDEN.search(line):
@@ -262,7 +264,7 @@ def main():
             broken_theorems.append("forbidden tokens: " + "; ".join(forbidden_hits[:5]))
         if tier == "thorough" and not replay:
             with Lock("lake.lock"):
-                rc, out = run(["lake", "env", "leanchecker", props_mod], cwd=LEAN)
+                rc, out = run(["lake", "env", "leanchecker"] + props_mods, cwd=LEAN)
             log.write(out)
             if rc != 0:
                 broken_theorems.append(f"leanchecker {props_mod}: {out.strip()[-200:]}")
